@@ -130,7 +130,9 @@ def run_script(drv, bdir, ops, want_emu, keep=None, shim=None, tmpdir=False, pro
         if tmpdir:
             env["OVNI_TMPDIR"] = os.path.join(d, "tmp")      # streams are relocated at ovni_thread_free
         if shim:
-            env.update({"LD_PRELOAD": shim, "VERIF_SHORTWRITE": "4096"})
+            # short writes, and the wall clock stepped back by 5 s after a few readings (the event clock
+            # must be monotone whatever the wall clock does)
+            env.update({"LD_PRELOAD": shim, "VERIF_SHORTWRITE": "4096", "VERIF_WALLCLOCK_STEP": "6"})
         rc, out, err = core.run([drv, sp, lp], timeout=120, env=env, cwd=d)
         execution, problems, aborted = interpret(lp, recs, table, td, tid_, rc, err, pid=pid_)
         emurun = None
